@@ -39,8 +39,10 @@ type c03Case struct {
 	// RK (reader mode): what kind of io.Reader the decoder is handed: 0 = a plain reader, 1 = a
 	// reader that also has a Seek method which fails (a pipe or socket opened as a file), 2 = a
 	// bufio.Reader with the smallest buffer (16 bytes), 3 = a bufio.Reader with the default buffer
-	RK      int   `json:"reader_kind,omitempty"`
-	Choices []int `json:"choices,omitempty"`
+	RK int `json:"reader_kind,omitempty"`
+	// Transient (writer mode): the injected writer fault happens once, later Write calls succeed.
+	Transient bool  `json:"transient,omitempty"`
+	Choices   []int `json:"choices,omitempty"`
 }
 
 func init() {
@@ -389,7 +391,7 @@ func readerBody(c *engine.Ctx, cs c03Case, fx *readerFixture, m *engine.MC) {
 func writerBody(c *engine.Ctx, cs c03Case, t geom.T, want []byte, m *engine.MC) {
 	g := cs.G
 	c.Count("evaluations", 1)
-	w := &engine.FaultWriter{M: m}
+	w := &engine.FaultWriter{M: m, Transient: cs.Transient}
 	var err error
 	bad := func(what, desc string) {
 		cc := cs
@@ -746,6 +748,9 @@ func c03Run(c *engine.Ctx) {
 			}
 			for _, xdr := range []bool{false, true} {
 				cs := c03Case{Mode: "writer", G: g, XDR: xdr, Ext: f.Ext, NaN: f.NaN}
+				runWriter(c, cs)
+				// and with one-off faults: the Write calls after the failed one succeed
+				cs.Transient = true
 				runWriter(c, cs)
 			}
 		}
